@@ -19,6 +19,7 @@ import (
 type Clause struct {
 	Kind string // requires ensures modifies invariant assert assume
 	Label string // optional stable name (tag id=...)
+	Reveal []string // recursive spec functions unfolded for this clause only (tag reveal=f)
 	Tags []string
 	Text string
 	Expr ast.Expr
@@ -96,7 +97,14 @@ type ChanInv struct {
 	C     *Clause
 }
 
+type RawAxiom struct {
+	Need string
+	Text string
+	Src  string
+}
+
 type Specs struct {
+	RawAxioms []*RawAxiom
 	ChanInvs  []*ChanInv
 	Preds     map[string]*Pred
 	Contracts map[string]*Contract
@@ -161,11 +169,14 @@ func (S *Specs) LoadFile(path string, goFile bool) error {
 			}
 		}
 		label := ""
+		var clauseReveal []string
 		{
 			var keep []string
 			for _, t := range tags {
 				if strings.HasPrefix(t, "id=") {
 					label = t[3:]
+				} else if strings.HasPrefix(t, "reveal=") {
+					clauseReveal = append(clauseReveal, t[7:])
 				} else {
 					keep = append(keep, t)
 				}
@@ -173,7 +184,7 @@ func (S *Specs) LoadFile(path string, goFile bool) error {
 			tags = keep
 		}
 		mkClause := func(kind, text string) *Clause {
-			c := &Clause{Kind: kind, Tags: tags, Text: text, Src: src, Label: label}
+			c := &Clause{Kind: kind, Tags: tags, Text: text, Src: src, Label: label, Reveal: clauseReveal}
 			last = c
 			return c
 		}
@@ -267,7 +278,9 @@ func (S *Specs) LoadFile(path string, goFile bool) error {
 				}
 				ls.Lets = append(ls.Lets, LoopLet{strings.TrimSpace(body[4:eq]), mkClause("let", strings.TrimSpace(body[eq+1:]))})
 			case strings.HasPrefix(body, "modifies"):
-				ls.Modifies = append(ls.Modifies, mkClause("modifies", strings.TrimSpace(body[8:])))
+				for _, part := range splitTop(strings.TrimSpace(body[8:]), ',') {
+					ls.Modifies = append(ls.Modifies, mkClause("modifies", strings.TrimSpace(part)))
+				}
 			default:
 				return fmt.Errorf("%s: unknown loop clause %q", src, body)
 			}
@@ -342,6 +355,14 @@ func (S *Specs) LoadFile(path string, goFile bool) error {
 			}
 			S.Funcs[sf.Name] = sf
 			S.FuncOrder = append(S.FuncOrder, sf.Name)
+			cur = nil
+		case "rawaxiom":
+			// rawaxiom <needed-symbol> <SMT-LIB assertion>
+			i := strings.IndexAny(rest, " \t")
+			if i < 0 {
+				return fmt.Errorf("%s: rawaxiom needs a symbol and a term", src)
+			}
+			S.RawAxioms = append(S.RawAxioms, &RawAxiom{Need: rest[:i], Text: strings.TrimSpace(rest[i+1:]), Src: src})
 			cur = nil
 		case "pred":
 			// pred name(a, b): expr   — a macro over Go-typed values, expanded at each use
